@@ -1,5 +1,7 @@
 import Driver.Common
 import LiskVerif.Model.RateLimit
+import LiskVerif.Model.Envelope
+import LiskVerif.Gen.Schemas
 
 /-!
 Line-protocol driver for C18 (connection gater, penalties, rate limiter).  See harness/c18/c18.go
@@ -77,6 +79,29 @@ def parseKind (s : String) : Option MsgKind :=
   if s.startsWith "bad" then some .malformed
   else if s.startsWith "p:" then some (.proc (s.drop 2).toString)
   else none
+
+/-- kind token of a `req` / `res` op. `bad<i>` / `p:<name>`: a message already classified by the
+generator. `x:<hex>[:...]`: the raw bytes the stream delivered (`-` = none); `e:<hex>[:...]`: the remote
+reset the stream (the read fails). Raw streams go through `Envelope.receiveStream`, i.e. they are
+classified by the MODEL's decoder over the regenerated p2p schemas; whatever follows a second `:` is
+the harness's own expectation and is not read here. -/
+inductive KindTok
+  | kind (k : MsgKind)
+  | stream (s : Envelope.StreamIn)
+
+def parseStream (s : String) : Option KindTok :=
+  match s.splitOn ":" with
+  | "x" :: h :: _ => (Hex.decode? h).map fun raw => .stream (.data raw)
+  | "e" :: h :: _ => (Hex.decode? h).map fun _ => .stream .readError
+  | _ => (parseKind s).map .kind
+
+def receiveTok (n : Node) (t : Nat) (isReq : Bool) (a : Addr) (p : Nat) : KindTok → Node × Option MsgKind
+  | .kind k => (receive n t isReq a p k, some k)
+  | .stream s =>
+    (Envelope.receiveStream Gen.allSchemas Codec.asciiNFC n t isReq a p s,
+      match s with
+      | .data raw => some (Envelope.kindOf Gen.allSchemas Codec.asciiNFC isReq raw)
+      | .readError => none)
 
 def parseIPList (s : String) : Option (List (Option IP)) :=
   if s == "-" then some [] else
@@ -188,13 +213,14 @@ def stepNode (n : Node) (w : List String) : Node × String :=
   | ["tick"] => (tick n, "ok")
   | [op, t, a, p, k] =>
     if op == "req" || op == "res" then
-      match t.toNat?, parseAddr a, p.toNat?, parseKind k with
+      match t.toNat?, parseAddr a, p.toNat?, parseStream k with
       | some t, some a, some p, some k =>
         if !n.mpStarted then (n, "not-started") else
-        let (n', d) := takeClosed (receive n t (op == "req") a p k)
-        let c := match k with
-          | .proc name => if (findCounter n'.counters name).isSome then toString (count n' name p) else "-"
-          | .malformed => "-"
+        let (n1, kind) := receiveTok n t (op == "req") a p k
+        let (n', d) := takeClosed n1
+        let c := match kind with
+          | some (.proc name) => if (findCounter n'.counters name).isSome then toString (count n' name p) else "-"
+          | _ => "-"
         (n', "h=" ++ toString n'.handled ++ " " ++ d ++ " s=" ++ entryStr n'.g a ++ " c=" ++ c)
       | _, _, _, _ => bad
     else bad
